@@ -151,7 +151,6 @@ def run_program(src, pair, prog, lazy, chunk_K=None):
             r = outcome(do)
         elif name == "replace":
             f = m[op["f"]]
-            k = 1 + sum(1 for p in prog[1:prog.index(op)] if p["op"] == "replace") if False else op.get("_k")
 
             def do():
                 n = len(t)
@@ -175,6 +174,12 @@ def run_program(src, pair, prog, lazy, chunk_K=None):
                 for row in rows:
                     out.append({nm: _proj_scalar(kinds[nm], getattr(row, nm)) for nm in names})
                 return out
+            r = outcome(do)
+        elif name == "row":
+            def do():
+                j = op["j"] - 1
+                row = t[np.int64(j) if op["form"] == "npint" else j]
+                return [{nm: _proj_scalar(kinds[nm], getattr(row, nm)) for nm in names}]
             r = outcome(do)
         elif name == "write":
             r = outcome(lambda: tk.write_bytes(src.fmt, t))
